@@ -1389,3 +1389,61 @@ func defsThroughAny(w *World, cf *FuncInfo, obj types.Object) ([]ast.Expr, []*Fu
 	}
 	return out, where
 }
+
+// mapHelper recognises a function that applies a function parameter to every element of a slice parameter, in order,
+// and returns the results (`out := make([]R, len(items)); for i, it := range items { out[i] = f(it) }; return out`,
+// or the unconditional append form). It returns the indexes of the slice and of the function parameter.
+func mapHelper(w *World, h *FuncInfo) (itemsIdx, fnIdx int, ok bool) {
+	if h == nil || h.Decl.Body == nil {
+		return 0, 0, false
+	}
+	info := h.Pkg.TypesInfo
+	var loops []*ast.RangeStmt
+	ast.Inspect(h.Decl.Body, func(x ast.Node) bool {
+		if rs, isR := x.(*ast.RangeStmt); isR {
+			loops = append(loops, rs)
+		}
+		return true
+	})
+	if len(loops) != 1 {
+		return 0, 0, false
+	}
+	rs := loops[0]
+	itemsID := identOf(rs.X)
+	valID := identOf(rs.Value)
+	if itemsID == nil || valID == nil {
+		return 0, 0, false
+	}
+	itemsIdx = paramIndex(h, objOf(info, itemsID))
+	if itemsIdx < 0 {
+		return 0, 0, false
+	}
+	accs := accumStmts(info, h.Decl, rs)
+	if len(accs) != 1 || len(accs[0].values) != 1 || len(rs.Body.List) != 1 {
+		return 0, 0, false
+	}
+	if len(reachConds(info, h.Decl, rs, accs[0].stmt, nil)) != 0 {
+		return 0, 0, false
+	}
+	call, isCall := ast.Unparen(accs[0].values[0]).(*ast.CallExpr)
+	if !isCall || len(call.Args) != 1 || identOf(call.Args[0]) == nil || objOf(info, identOf(call.Args[0])) != objOf(info, valID) {
+		return 0, 0, false
+	}
+	fid := identOf(call.Fun)
+	if fid == nil {
+		return 0, 0, false
+	}
+	fnIdx = paramIndex(h, objOf(info, fid))
+	if fnIdx < 0 {
+		return 0, 0, false
+	}
+	// the accumulated slice is what is returned
+	returned := false
+	ast.Inspect(h.Decl.Body, func(x ast.Node) bool {
+		if ret, isRet := x.(*ast.ReturnStmt); isRet && len(ret.Results) == 1 && es(ret.Results[0]) == accs[0].target {
+			returned = true
+		}
+		return true
+	})
+	return itemsIdx, fnIdx, returned
+}
